@@ -236,6 +236,7 @@ function observe(nodes, sel, out) {
       if (sel === 'sn') { if (n.t === 'slot') out.push(n.name) }
       else if (sel === 'fk') { if (n.t === 'for') out.push(n.key) } // the wx:key handed to F
       else if (sel === 'gen') { if (n.t === 'el' && n.generics && Object.keys(n.generics).length) out.push(n.generics) } // generic:x="impl"
+      else if (sel === 'devA') { if (n.dev && Array.isArray(n.dev.A)) out.push(n.dev.A.map($str).sort()) } // dev mode: the attribute-name list, as a set
       else if (sel === 'slot') { if ((n.t === 'el' || n.t === 'slot' || n.t === 'virtual') && n.slot !== undefined) out.push(n.slot) } // static slot="name"
       else if (sel !== 't' && Object.prototype.hasOwnProperty.call(n.attrs, sel)) out.push(n.attrs[sel])
       observe(n.children, sel, out)
